@@ -21,10 +21,72 @@ COMMENT_POOL = ["note", "TODO: check", "a // b", "x::y"]
 NAME_POOL = ["DOC", "D", "MY_DOC", "X1", "Status"]
 SECTION_IDS = ["1", "2", "2b", "10", "0"]
 
+# ---------------------------------------------------------------------------------------------
+# STRING values whose text, if it were ever written without its quotes or taken for layout, is something else
+# in the language (feature `lookalikes`; C15 turns it on — C14's feature sets do not, its stream is unchanged).
+# Three classes; each is a class of legitimate string values, every member must survive as that very string.
+# ---------------------------------------------------------------------------------------------
+# (a) spelled like a literal or a keyword of this or a neighbouring notation, in the "wrong" case or dialect
+LITERAL_LIKE_POOL = ["True", "TRUE", "False", "FALSE", "Null", "NULL", "tRUE", "truE", "nULL", "None", "NONE", "nil", "Nil", "NaN", "nan",
+                     "Infinity", "inf", "-inf", "Yes", "yes", "No", "no", "on", "off", "Vs", "VS", "undefined", "true1", "trueX", "nulls",
+                     "null/x", "META", "END", "SEAL"]
+# (b) would be a comment, a path, a fence, a marker, an operator, a number, a bracket … when written bare
+BARE_SYNTAX_POOL = [
+    # comment-like / slashes / dots (identifier characters of the lexer that the emitter's identifier pattern does not allow first)
+    "//cdn.example.com/app.js", "//fileserver/builds", "//", "// note", "///", "/usr/bin", "/", "./x", "../up", "./run.sh", "a//b", "a/b",
+    "src/app.py", "x//", ".", "..", "...", ".gitignore", "x.", "a.b",
+    # hyphens / digits first
+    "a-", "-a", "-", "--", "--flag", "a-b", "2b", "1abc", "0", "00", "01", "-1", "+1", "1.", ".5", "1e5", "1e", "0x10", "1_000", "1,2", "1.2.3", "v1",
+    # fences, separators, envelopes, markers
+    "---", "```", "```py", "````", "~~~", "===END===", "===X===", "===", "==", "=", "#x", "#1", "#", "# x", "§x", "§1", "§",
+    "§1::X", "§SEAL::SEAL", "OCTAVE::6.0.0", "META:",
+    # assignment / block operators
+    "::", "a::b", "K::v", ":", "a:", "a:b", ":a",
+    # expression operators, ASCII aliases, sigils
+    "→", "->", "a->b", "<->", "a<->b", "⊕", "+", "a+b", "&", "a&b", "∧", "a∧b", "|", "a|b", "∨", "~", "a~b", "⧺",
+    "a⧺b", "⇌", "a⇌b", "a vs b", "@", "@x", "a@b", "$", "$VAR", "$1:name", "*", "?", "!", "%", "^", "⚡",
+    # brackets, annotations, constructors, separators, quotes, escapes
+    "<", ">", "<x>", "a<b>", "NAME<q>", "NEVER<A,B>", "a<", "[", "]", "[]", "[a]", "a[1]", "{", "}", "{}", "{a}", "(", ")", "()", "a(b)", "FN(x)",
+    ",", "a,b", ",a", ";", "'", "'a'", '"', '""', '"a"', "\\", "\\n", "\\t", "a\\", "\\\"",
+    # blanks
+    " ", "  a", "a ", " a b ", "\ta", "a\t", "a\n", "\n", "\n\n",
+]
+# the emitter protects a reserved word followed by a non-word character (true.x); the harness's own renderer (project_docs.render, not
+# ours to edit) writes those bare, so they are used on the API route only
+RESERVED_PREFIX_POOL = ["true.x", "true-x", "false.y", "null-y", "vs.", "vs.a"]
+# (c) contains a character that str.splitlines() / some editors take for a line boundary although it is not "\n": legal inside a
+# quoted string and inside a literal zone, kept verbatim by reader and emitter
+LINE_BOUNDARY_CHARS = ["\u2028", "\u2029", "\x0c", "\x0b", "\x85", "\x1c", "\x1d", "\x1e", "\r"]
+LINE_BOUNDARY_POOL = (["first paragraph\u2028second paragraph", "p1\u2029p2", "page1\x0cpage2", "col\x0bcol", "nel\x85nel", "fs\x1cgs\x1drs\x1eus\x1fend",
+                       "cr\rcr", "crlf\r\nend", "\u2028", "\x0c", "\x85", "\r", "tail\u2029", "\x0bhead", "two\u2028\u2028breaks", "mixed\u2028\x0c\x85\x0b"]
+                      + ["a%sb" % c for c in ("\x1c", "\x1d", "\x1e")])
+LOOKALIKE_POOL = LITERAL_LIKE_POOL + BARE_SYNTAX_POOL + LINE_BOUNDARY_POOL
+ZONE_LINE_BOUNDARY_POOL = [("a\u2028b", None, "```"), ("p1\u2029p2\nnext", "txt", "```"), ("page1\x0cpage2", None, "```"), ("v\x0bt", "py", "```"), ("n\x85l", None, "```"),
+                           ("fs\x1cgs\x1drs\x1e", None, "```"), ("\u2028", None, "```"), ("line\n\x0c\nline", None, "```"), ("cr\rcr", None, "```"), ("x\u2028\n", "json", "```")]
 
-def scalar(rng, md_safe=True):
+
+def lookalike_docs(strings=None, zones=None):
+    """Deterministic family: for each string of the three classes one document per POSITION GROUP a string value can take
+    — scalar (nested in a block, in a section, and as the last node before the seal), list item (first of a one-line list, middle of a
+    multi-line list, last item, value of an inline map, item of a list inside an inline map) and META (field value, item of a META list) —
+    and for each zone of class (c) one document with that literal zone (nested and last).  [(label, doc)]."""
+    out = []
+    for s in (LOOKALIKE_POOL + RESERVED_PREFIX_POOL if strings is None else strings):
+        v = vstr(s)
+        out.append(("scalar", s, DOC([A("FIRST", vint(1)), B("BLK", [A("INNER", v), A("NEXT", vint(2))]), S("1", "SEC", [A("INSEC", v)]), A("K", v)], name="DOC")))
+        out.append(("list", s, DOC([A("L1", vlist([v, vint(1)])), A("L3", vlist([vstr("a"), v, vstr("b")])), A("LAST", vlist([vstr("a"), v])),
+                                    A("M", vlist([vimap([("k", v)]), vimap([("k2", vlist([v, vstr("z")]))])])), A("AFTER", vint(1))], name="DOC")))
+        out.append(("meta", s, DOC([A("K", vint(1))], name="DOC", meta=[("TYPE", v), ("TAGS", vlist([v, vstr("t")])), ("OWNER", vstr("o"))])))
+    for c, tag, f in (ZONE_LINE_BOUNDARY_POOL if zones is None else zones):
+        out.append(("zone", c, DOC([B("BLK", [A("Z", vzone(c, tag, f)), A("NEXT", vint(2))]), A("ZLAST", vzone(c, tag, f))], name="DOC", meta=[("TYPE", vstr("T"))])))
+    return out
+
+
+def scalar(rng, md_safe=True, feats=()):
     r = rng.random()
     if r < 0.45:
+        if "lookalikes" in feats and rng.random() < 0.3:
+            return vstr(rng.choice(LOOKALIKE_POOL))
         pool = STR_POOL if (md_safe or rng.random() < 0.7) else ML_STR_POOL
         return vstr(rng.choice(pool))
     if r < 0.65:
@@ -47,27 +109,27 @@ def list_value(rng, feats, depth=0, from_text=True):
             # the reader yields one single-pair InlineMap per `k::v` item; the API allows any number of pairs
             npairs = 1 if from_text else rng.choice([0, 1, 2, 3])
             keys = rng.sample(["k", "k2", "id", "STATUS", "n"], npairs)
-            items.append(vimap((k, scalar(rng)) if rng.random() < 0.8 or not from_text else (k, vlist([scalar(rng) for _ in range(rng.choice([0, 1, 2]))])) for k in keys))
+            items.append(vimap((k, scalar(rng, feats=feats)) if rng.random() < 0.8 or not from_text else (k, vlist([scalar(rng, feats=feats) for _ in range(rng.choice([0, 1, 2]))])) for k in keys))
         else:
-            items.append(scalar(rng))
+            items.append(scalar(rng, feats=feats))
     return vlist(items)
 
 
 def value(rng, feats, from_text=True):
     r = rng.random()
     if r < 0.5:
-        return scalar(rng, md_safe="mlstr" not in feats)
+        return scalar(rng, md_safe="mlstr" not in feats, feats=feats)
     if r < 0.75 and "lists" in feats:
         return list_value(rng, feats, 0, from_text)
     if r < 0.85 and "zones" in feats:
-        c, tag, f = rng.choice(ZONE_POOL)
+        c, tag, f = rng.choice(ZONE_LINE_BOUNDARY_POOL if "lookalikes" in feats and rng.random() < 0.25 else ZONE_POOL)
         return vzone(c, tag, f)
     if r < 0.92 and "holo" in feats:
         return vholo(rng.choice(HOLO_POOL))
     if r < 0.97 and "imaps" in feats and not from_text:
         keys = rng.sample(["k", "k2", "id", "CI"], rng.choice([0, 1, 2]))
-        return vimap((k, scalar(rng)) for k in keys)
-    return scalar(rng)
+        return vimap((k, scalar(rng, feats=feats)) for k in keys)
+    return scalar(rng, feats=feats)
 
 
 def key(rng, feats, used, kind="a"):
@@ -139,12 +201,12 @@ def children(rng, feats, depth, maxdepth, from_text, in_section=False):
             if not ch and from_text and (depth > 0 or not last):
                 # an empty nested block/section captures the lines that follow it (lenient reader): keep
                 # text documents inside what reads back as written
-                ch = [A(key(rng, feats, set(), "a"), scalar(rng))]
+                ch = [A(key(rng, feats, set(), "a"), scalar(rng, feats=feats))]
             out.append(B(key(rng, feats, used, "b"), ch, comments(rng, feats) if lc_ok(out, depth, from_text) else None))
         else:
             ch = children(rng, feats, depth + 1, maxdepth, from_text, True)
             if not ch and from_text and (depth > 0 or not last):
-                ch = [A(key(rng, feats, set(), "a"), scalar(rng))]
+                ch = [A(key(rng, feats, set(), "a"), scalar(rng, feats=feats))]
             out.append(S(rng.choice(SECTION_IDS), key(rng, feats, used, "s"), ch, comments(rng, feats) if lc_ok(out, depth, from_text) else None))
         if "comments" in feats and not from_text and rng.random() < 0.08:
             out.append(C(rng.choice(COMMENT_POOL)))
@@ -154,17 +216,17 @@ def children(rng, feats, depth, maxdepth, from_text, in_section=False):
 def meta(rng, feats, from_text=True):
     if "meta" not in feats or rng.random() < 0.3:
         return []
-    ps = [("TYPE", vstr(rng.choice(["TEST", "SESSION_LOG", "x y"])))]
+    ps = [("TYPE", vstr(rng.choice(LOOKALIKE_POOL) if "lookalikes" in feats and rng.random() < 0.2 else rng.choice(["TEST", "SESSION_LOG", "x y"])))]
     if rng.random() < 0.6:
         ps.append(("VERSION", vstr(rng.choice(["1.0", "2.1.0", "v3"]))))
     if rng.random() < 0.3:
-        ps.append((rng.choice(["STATUS", "TESTS", "OWNER"]), scalar(rng)))
+        ps.append((rng.choice(["STATUS", "TESTS", "OWNER"]), scalar(rng, feats=feats)))
     if rng.random() < 0.3 and "lists" in feats:
-        ps.append(("TAGS", vlist([scalar(rng) for _ in range(rng.choice([0, 1, 2, 3]))])))
+        ps.append(("TAGS", vlist([scalar(rng, feats=feats) for _ in range(rng.choice([0, 1, 2, 3]))])))
     if "meta_nested" in feats and rng.random() < 0.6:
-        inner = [("J", scalar(rng))]
+        inner = [("J", scalar(rng, feats=feats))]
         if rng.random() < 0.6:
-            inner.append(("L", vlist([scalar(rng) for _ in range(rng.choice([1, 2]))])))
+            inner.append(("L", vlist([scalar(rng, feats=feats) for _ in range(rng.choice([1, 2]))])))
         ps.append(("SUB", vpydict(inner)))
     return ps
 
